@@ -10,7 +10,7 @@ use serde_json::{json, Value};
 
 fn outcome(rule: &str, word: &str, into: &[String], from: &[String]) -> String {
     let (r, w, i, f) = (rule.to_string(), word.to_string(), into.to_vec(), from.to_vec());
-    let rec = v::record(30_000, false, false, move || asca::run(&[RuleGroup::from_rules(vec![r])], &[w], &i, &f));
+    let rec = crate::util::rec(30_000, false, false, move || asca::run(&[RuleGroup::from_rules(vec![r])], &[w], &i, &f));
     match rec.result { Ok(Ok(o)) => format!("ok {:?}", o), Ok(Err(e)) => format!("err {}", err_key(&e)), Err(p) => if p.downcast_ref::<v::BudgetExhausted>().is_some() { "budget".into() } else { format!("panic {}", panic_text(&p)) } }
 }
 
